@@ -183,6 +183,8 @@ func LexGreedy() []*LexSpec {
 		{"L-ws", "NUM = [0-9]+\nID = [a-z_][a-z0-9_]*\n@frag [ \\t\\n]+ @discard"},
 		{"L-esc", "A = '\\n'\nB = '\\t\\\\'\nC = [\\n\\-\\\\]+\nD = '\\x41\\u00e9'"},
 		{"L-dashcls", "A = [a\\-z]+\nB = [b-y]"},
+		{"L-tri", "K = 'e'\nX = [a-f]+\nY = [c-z]+"},
+		{"L-tri2", "X = [a-m]\nY = [h-z]\nZ = [j-k]+ 'x'"},
 		{"L-loopstart", "A = 'x'* 'y'\nB = 'z'"},
 		{"L-loopstart2", "A = ('a'|'b')* 'c'"},
 		{"L-nul", "S = '\"' ~[\"]* '\"'\nW = [a-z]+\nN = '\\x00' '!'\nANY = ."},
